@@ -146,7 +146,27 @@ func drawGoCase(t *rapid.T, tcfg gomodel.TypeCfg, vcfg gomodel.ValCfg) *GoCase {
 	if err != nil {
 		t.Fatalf("harness: %v", err)
 	}
+	vcfg.DynFolders = tcfg.FoldOnly
 	return &GoCase{Type: *td, Val: gomodel.DrawValue(t, typ, vcfg)}
+}
+
+// drawGoHistory draws n cases for one instance; later types share components
+// with earlier ones half of the time (gomodel.DrawRelatedType).
+func drawGoHistory(t *rapid.T, n int, tcfg gomodel.TypeCfg, vcfg func() gomodel.ValCfg) []GoCase {
+	var out []GoCase
+	var prev []*gomodel.TypeDesc
+	for i := 0; i < n; i++ {
+		td := gomodel.DrawRelatedType(t, prev, tcfg)
+		typ, err := gomodel.Build(td)
+		if err != nil {
+			t.Fatalf("harness: %v", err)
+		}
+		vc := vcfg()
+		vc.DynFolders = tcfg.FoldOnly
+		out = append(out, GoCase{Type: *td, Val: gomodel.DrawValue(t, typ, vc)})
+		prev = append(prev, td)
+	}
+	return out
 }
 
 func describeGo(c *GoCase, rv reflect.Value) string {
